@@ -61,6 +61,25 @@ ASTNode *get_cached_module_ast(const char *module_path) {
     return NULL;
 }
 
+/* Modules whose loading failed (lexing, parsing, imports or type checking).  A failed module
+ * stays in the cache - it was entered there before loading to break import cycles - so "cached
+ * and no AST" alone does not tell a module that is still being loaded from one that failed. */
+static char **failed_modules = NULL;
+static int failed_module_count = 0;
+
+static bool is_module_failed(const char *module_path) {
+    for (int i = 0; i < failed_module_count; i++) {
+        if (strcmp(failed_modules[i], module_path) == 0) return true;
+    }
+    return false;
+}
+
+static void mark_module_failed(const char *module_path) {
+    if (is_module_failed(module_path)) return;
+    failed_modules = realloc(failed_modules, sizeof(char*) * (size_t)(failed_module_count + 1));
+    failed_modules[failed_module_count++] = strdup(module_path);
+}
+
 static void cache_module(const char *module_path) {
     init_module_cache();
     if (is_module_cached(module_path)) return;
@@ -560,6 +579,7 @@ static ASTNode *load_module_internal(const char *module_path, Environment *env, 
     FILE *file = fopen(module_path, "r");
     if (!file) {
         fprintf(stderr, "Error: Could not open module file '%s'\n", module_path);
+        mark_module_failed(module_path);
         return NULL;
     }
     
@@ -578,6 +598,7 @@ static ASTNode *load_module_internal(const char *module_path, Environment *env, 
     if (!tokens) {
         fprintf(stderr, "Error: Failed to tokenize module '%s'\n", module_path);
         free(source);
+        mark_module_failed(module_path);
         return NULL;
     }
     
@@ -587,6 +608,7 @@ static ASTNode *load_module_internal(const char *module_path, Environment *env, 
         fprintf(stderr, "Error: Failed to parse module '%s'\n", module_path);
         free_tokens(tokens, token_count);
         free(source);
+        mark_module_failed(module_path);
         return NULL;
     }
     
@@ -596,6 +618,7 @@ static ASTNode *load_module_internal(const char *module_path, Environment *env, 
         free_ast(module_ast);
         free_tokens(tokens, token_count);
         free(source);
+        mark_module_failed(module_path);
         return NULL;
     }
     
@@ -635,6 +658,7 @@ static ASTNode *load_module_internal(const char *module_path, Environment *env, 
         free_ast(module_ast);
         free_tokens(tokens, token_count);
         free(source);
+        mark_module_failed(module_path);
         return NULL;
     }
     
@@ -879,8 +903,9 @@ bool process_imports(ASTNode *program, Environment *env, ModuleList *modules, co
             }
             
             /* NULL return means module was already loaded - this is OK */
-            if (module_ast == NULL && !is_module_cached(module_path)) {
-                /* Only error if module wasn't cached (i.e., actual failure) */
+            if (module_ast == NULL && (!is_module_cached(module_path) || is_module_failed(module_path))) {
+                /* Only error if the module is not in the cache or failed to load; a cached module
+                 * without an AST that has not failed is an import cycle being resolved */
                 fprintf(stderr, "Error at line %d, column %d: Failed to load module '%s'\n",
                         item->line, item->column, module_path);
                 free(module_path);
